@@ -224,7 +224,9 @@ pub fn any_value(src: &mut Src, depth: usize) -> Value {
 
 /// real-world extension / option members that platforms send and this crate does not model
 pub fn realistic_unknown(src: &mut Src) -> (Value, Value) {
-    match src.below(8) {
+    match src.below(10) {
+        8 => (Value::text("thirdPartyPayment"), if src.bool() { Value::Bool(true) } else { Value::Uint(1) }),
+        9 => (Value::text("credBlob"), Value::Bool(true)),
         0 => (
             Value::text("transports"),
             Value::Array(vec![Value::text("usb"), Value::text("nfc"), Value::text("internal")]),
